@@ -33,6 +33,11 @@ def main() -> int:
             if a.replay:
                 return rx_check.replay(a.prop, a.replay)
             return rx_check.run_check(a.prop, a.tier)
+        if a.prop in ("C13", "C14"):
+            from engine import calc_check
+            if a.replay:
+                return calc_check.replay(a.prop, a.replay)
+            return calc_check.run_check(a.prop, a.tier)
         if a.prop in ("C09", "C11"):
             from engine import cl_check
             if a.replay:
